@@ -75,7 +75,7 @@ def simple_cmd(rng, timed=None):
     if k == "fchan":
         return [0x11, rng.randrange(8), rng.randrange(8), rng.randrange(8)] + d()
     if k == "trig":
-        p = rng.choice([0x00, 0x03, 0x10, 0x20, 0x30, 0x45])
+        p = rng.choice([0x00, 0x03, 0x10, 0x20, 0x30, 0x45, 0x11, 0x12, 0x21, 0x23, 0x34, 0x35, 0x51, 0x62, 0x7f])
         return [0x13, p] + (varint(rng.randrange(0, 40)) if p & 0x30 else [])
     raise AssertionError(k)
 
@@ -181,6 +181,15 @@ def special_programs(rng, thorough=False, deep=True):
         out.append(("deep-nesting", [0x0c, 2] * n + body + [0x0d] * n + [0x04, 9, 9, 9, 50, 0]))
         out.append(("deep-nesting", [0x04, 1, 2, 3, 1] + [0x0c, rng.choice([1, 2, 3])] * n + body + [0x0d] * (n // 2) + [0x08, 200, 100, 50, 10]
                     + [0x0d] * (n - n // 2) + [0x06, 5]))
+    # triggered jumps watching more channels than there are trigger slots, replayed by back-seeks and loops
+    for rep in range(6 if thorough else 3):
+        prog = [0x04, 255, 0, 0, 50]
+        for ch in rng.sample(range(1, 8), rng.choice([2, 4, 5, 6])):
+            prog += [0x13, rng.choice([0x10, 0x20, 0x30]) | ch] + varint(rng.randrange(0, 20))
+        prog += [0x04, 0, 255, 0, 50, 0x14, 0x83, 0x04, 0, 0, 255, 50]
+        if rep % 3 == 2:
+            prog = [0x0c, 3] + prog + [0x0d, 0x07, 20]
+        out.append(("many-triggers", prog))
     for size in ([250, 65530, 65700, 131080] if thorough else [250, 65530, 65700]):
         live = block(rng, 0, 2) + [0x04, 7, 7, 7, 50] + block(rng, 0, 1)
         # jump over a pad of NOPs into the live part, which ends with a jump back to its own start (a cycle that consumes time)
